@@ -226,9 +226,30 @@ def register(reg):
                   (WW + '._line_no_calc', make_calc_field)]))
     units['_ParsingContext.__exit__'] = FunctionUnit(c_exit)
 
+
+    # ---- make_token_reader -----------------------------------------------------------------------------------------
+    def setup_mtr(it):
+        w = mk_walker(it, calc=False, name='self')
+        pos = None if it.ctx.choose(2, 'pos given') == 0 else sym_int(it, 'pos')
+        return {'self': w, 'pos': pos}
+
+    def make_reader_result(it, env):
+        w = env.vars['self']
+        pos = env.vars['pos']
+        return new_obj(it, 'pylatexenc.latexnodes._tokenreader.LatexTokenReader',
+                       {'s': w.fields['s'], '_pos': 0 if pos is None else pos,
+                        'tolerant_parsing': w.fields['tolerant_parsing']}, tag='token_reader', is_input=False)
+    c_mtr = reg.add(Contract(
+        W + '.make_token_reader', setup=setup_mtr, result_make=make_reader_result,
+        ensures=[('reads-the-walkers-string', 'result.s == self.s'),
+                 ('starts-at-the-requested-position', 'result._pos == (0 if pos is None else pos)'),
+                 ('inherits-the-tolerant-flag', 'result.tolerant_parsing == self.tolerant_parsing')],
+        modifies=[]))
+    units['make_token_reader'] = FunctionUnit(c_mtr)
+
     for k in units:
         contracts.REPLAYERS[k] = replay_walker
-    return {'C20': {k: v for k, v in units.items() if k != 'check_tolerant_parsing_ignore_error'},
+    return {'C20': {k: v for k, v in units.items() if k not in ('check_tolerant_parsing_ignore_error', 'make_token_reader')},
             'C05': {k: units[k] for k in ('check_tolerant_parsing_ignore_error', '_ParsingContext.__exit__')},
             'C06': {k: units[k] for k in ('check_tolerant_parsing_ignore_error', '_ParsingContext.__exit__')}}
 
